@@ -68,3 +68,25 @@ Example C16_example :
   /\ encode_host no_ip [97; 47; 98] false = Ok [97; 47; 98].
 Proof. repeat split; vm_compute; reflexivity. Qed.
 Print Assumptions C16_example.
+
+(** registered names that are not ASCII are IDNA-encoded (IDNA 2008/UTS 46, the IDNA 2003
+    codec lower-cased as the fall-back) and then screened like any other name *)
+Theorem C16_idna_names : forall (O : oracles) h v,
+  isascii h = false -> (forall raw, o_ip_parse O raw = None) ->
+  encode_host O h v =
+    match o_idna2008_enc O h with
+    | Some r => validate_regname v r
+    | None => match o_idna2003_enc O h with
+              | Some r => validate_regname v (lower_ascii r)
+              | None => Err ValueError
+              end
+    end.
+Proof. exact encode_host_idna. Qed.
+Print Assumptions C16_idna_names.
+
+Theorem C16_idna2003_lower_case : forall (O : oracles) h v r r',
+  isascii h = false -> (forall raw, o_ip_parse O raw = None) ->
+  o_idna2008_enc O h = None -> o_idna2003_enc O h = Some r ->
+  encode_host O h v = Ok r' -> r' = lower_ascii r /\ no_upper r' = true.
+Proof. exact encode_host_idna2003_lower. Qed.
+Print Assumptions C16_idna2003_lower_case.
